@@ -145,7 +145,7 @@ func crashed(stderr string, ps *os.ProcessState) string {
 func c19(x *mon.Ctx) {
 	x.Level = "exploration"
 	x.Rule = "the tools/check binary rebuilt from the working tree is run as a child process on generated inputs: per policy field (13 fields) config in {absent, matching, mismatching, malformed} x flag in {absent, matching, mismatching, malformed}; binary / textproto config incl. absent sub-messages; -inform bin / proto / textproto with valid / forged / unparsable quotes; trusted-root bundles {right, wrong, missing, empty, two files}; network {none, in-process PCS reachable through HTTPS_PROXY, proxy dead, CRL endpoints failing only, collateral saying OutOfDate}; option flags vs config for get_collateral / check_crl. Oracle: reference merge (a flag, when given, overrides the same config field; flag bytes are hex-else-base64, right-padded) + reference verification + reference policy give: exit 0 => everything holds (all runs); for single-fault runs the exact code (1 malformed, 2 verification, 3 unreachable collateral / CRL, 4 policy); crash markers on stderr or death by signal are violations whatever the code. Library half: with failing endpoints errors.As finds the typed fetch errors in what verify returns. distinct = distinct command line."
-	x.Assume = []string{"worlds are valid for +-10 years around the real date because the binary uses time.Now()", "loopback networking works in the sandbox"}
+	x.Assume = []string{"worlds are valid for +-10 years around the real date because the binary uses time.Now()", "loopback networking works in the sandbox", "a numeric flag value without a base prefix is decimal, leading zeros included (the tool's established syntax)"}
 	tool := os.Getenv("VERIF_CHECK_TOOL")
 	if tool == "" {
 		x.Broken("VERIF_CHECK_TOOL not set (./check builds the tool and exports it)")
